@@ -167,7 +167,7 @@ Definition read_psk (n : N) (ids : list psk_identity) (bs : list bytes) : res by
            ++ enc_u16 (psk_ids_len ids)
            ++ flat_map (fun i => enc_u16 (blen (fst i)) ++ fst i ++ enc_u32 (snd i)) ids
            ++ enc_u16 (psk_binders_len bs)
-           ++ flat_map (fun b => enc_u8 (blen b) ++ b) bs).
+           ++ protos_bytes bs).                 (* b[offset] = byte(len(binder)); copy(b[offset+1:], binder) *)
 
 (* validHashLen = hash sizes of cipherSuitesTLS13 (SHA-256, SHA-256, SHA-384) *)
 Definition valid_binder_len (l : N) : bool := (l =? 32) || (l =? 48).
